@@ -56,8 +56,8 @@ Theorem c04_oracle_run : forall e po hs s,
 Proof. exact oracle_c04_run_model. Qed.
 Print Assumptions c04_oracle_run.
 
-Theorem c04_oracle_session : forall dir chal keypair rs s,
-  oracle_c04_session rs (snd (session dir chal keypair rs s)) = true.
+Theorem c04_oracle_session : forall chal keypair rs s,
+  oracle_c04_session rs (snd (session chal keypair rs s)) = true.
 Proof. exact oracle_c04_session_model. Qed.
 Print Assumptions c04_oracle_session.
 
